@@ -312,6 +312,7 @@ static rc::Gen<Case> genCase(int tier)
         HistoryGenParams hp;
         hp.maxFrames = 6;
         hp.bigSegmentHistories = 6;  // accumulations beyond what a 16-bit length can describe
+        hp.manyEndpoints = 8;        // dozens / hundreds / a thousand messages in progress at once
         for (int i = 0; i < n; ++i)
         {
             int what = *rc::gen::weightedElement<int>({{5, 0}, {2, 1}, {1, 2}});
